@@ -762,10 +762,10 @@ class Frame(object):
             # Integrate in time direction to capture temporal variations more
             # accurately
             if integrate_t_profile:
-                new_ts = np.linspace(0,
-                                     self.tchans * self.dt,
-                                     self.tchans * t_subsamples,
-                                     endpoint=False)
+                new_ts = self.ts[0] + np.linspace(0,
+                                                  self.tchans * self.dt,
+                                                  self.tchans * t_subsamples,
+                                                  endpoint=False)
                 y = t_profile(new_ts)
                 if not isinstance(y, np.ndarray):
                     y = np.repeat(y, self.tchans * t_subsamples)
@@ -795,10 +795,10 @@ class Frame(object):
             # Average using integration to get a better position in frequency
             # direction
             if integrate_path:
-                new_ts = np.linspace(0,
-                                     tchans_eff * self.dt,
-                                     tchans_eff * t_subsamples,
-                                     endpoint=False)
+                new_ts = self.ts[0] + np.linspace(0,
+                                                  tchans_eff * self.dt,
+                                                  tchans_eff * t_subsamples,
+                                                  endpoint=False)
                 f = path(new_ts)
                 if not isinstance(f, np.ndarray):
                     f = np.repeat(f, tchans_eff * t_subsamples)
